@@ -10,30 +10,31 @@ def sort_instances(tier):
         i.small = small
         out.append(i)
     # composite under the REAL tuning constants: lengths up to 20 are the insertion-sort regime
-    for l in ([3, 6] if q else [2, 3, 5, 7, 9, 10]):
+    for l in ([3, 6, 8] if q else [2, 3, 5, 7, 9, 10, 12]):
         add("qs_real_uncancelled_l%d" % l, l + 3, "quicksort_uncancelled::<%d>()" % l, {"len": l, "constants": "real", "cancel": "never"}, False)
-    for l in ([5] if q else [4, 7]):
+    for l in ([5] if q else [4, 7, 9]):
         add("qs_real_cancelled_l%d" % l, l + 3, "quicksort_cancelled::<%d>()" % l, {"len": l, "constants": "real", "cancel": "symbolic moment"}, False)
-    # composite under SHRUNK constants (MAX_INSERTION 3, MAX_SEQUENTIAL 6, BLOCK 4, ...): partitioning,
-    # block tails, partition_equal, pattern breaking, heapsort fallback, the parallel branch
-    for l in ([5, 8] if q else [4, 5, 6, 7, 8, 9, 10]):
+    # composite under SHRUNK constants (MAX_INSERTION 3, MAX_SEQUENTIAL 2, BLOCK 4, ...): partitioning,
+    # block tails, partition_equal, pattern breaking, heapsort fallback. Calibration: length 5 does not
+    # finish in 15 min (the split point is symbolic, so every recursive call works on a slice of
+    # symbolic length); length 4 is the largest composite that fits, the pieces are covered as units
+    for l in ([4] if q else [4]):
         add("qs_small_uncancelled_l%d" % l, l + 4, "quicksort_uncancelled::<%d>()" % l, {"len": l, "constants": "shrunk", "cancel": "never"}, True)
-    for l in ([8] if q else [8, 9, 10]):
-        add("qs_small_cancelled_l%d" % l, l + 4, "quicksort_cancelled::<%d>()" % l, {"len": l, "constants": "shrunk", "cancel": "symbolic moment"}, True)
-    for l in ([6] if q else [5, 6, 7, 8]):
-        add("recurse_limit_small_l%d" % l, l + 4, "recurse_limit::<%d>()" % l, {"len": l, "constants": "shrunk", "imbalance_budget": "symbolic 0..4"}, True)
-    # units under the real constants
-    units = [("heapsort_unit", [5] if q else [2, 3, 5, 6, 8]), ("insertion_unit", [4] if q else [2, 4, 6]),
-             ("partial_insertion_unit", [5] if q else [3, 5, 7]), ("partition_unit", [5] if q else [2, 3, 5, 7, 9]),
+    if not q:
+        add("qs_small_cancelled_l4", 8, "quicksort_cancelled::<4>()", {"len": 4, "constants": "shrunk", "cancel": "symbolic moment"}, True)
+        add("recurse_limit_small_l4", 8, "recurse_limit::<4>()", {"len": 4, "constants": "shrunk", "imbalance_budget": "symbolic 0..4"}, True)
+    # units under the real constants (partition with the real BLOCK = 128 exhausts memory even at length 5:
+    # it is covered under the shrunk BLOCK = 4)
+    units = [("heapsort_unit", [5, 6] if q else [2, 3, 4, 5, 6, 8]), ("insertion_unit", [4] if q else [2, 4, 6]),
+             ("partial_insertion_unit", [5] if q else [3, 5, 7]),
              ("partition_equal_unit", [4] if q else [2, 4, 6, 8]), ("choose_pivot_unit", [8] if q else [3, 8, 9]),
              ("break_patterns_unit", [8] if q else [8, 9, 12])]
     for fn, ls in units:
         for l in ls:
             add("%s_real_l%d" % (fn, l), max(l + 3, 6), "%s::<%d>()" % (fn, l), {"len": l, "constants": "real", "unit": fn}, False)
-    if not q:
-        for fn, ls in (("partition_unit", [6, 9, 10]), ("partial_insertion_unit", [6, 8]), ("choose_pivot_unit", [6, 8])):
-            for l in ls:
-                add("%s_small_l%d" % (fn, l), l + 4, "%s::<%d>()" % (fn, l), {"len": l, "constants": "shrunk", "unit": fn}, True)
+    for fn, ls in (("partition_unit", [4] if q else [3, 4, 5, 6]), ("partial_insertion_unit", [] if q else [6, 7]), ("choose_pivot_unit", [] if q else [6, 8])):
+        for l in ls:
+            add("%s_small_l%d" % (fn, l), l + 4, "%s::<%d>()" % (fn, l), {"len": l, "constants": "shrunk", "unit": fn}, True)
     return out
 
 
@@ -68,12 +69,32 @@ def proto_instances(tier):
         i.small = True
         i.unwind_rules = rules or PROTO_RULES
         out.append(i)
-    for st in ([3] if q else [3, 4, 5]):
-        add("injector_count_s%d" % st, 8, "injector_count::<%d>()" % st, ["C20"],
-            {"steps": st, "operations": "symbolic among injector/clone/drop/restart(b)/tick(0)/run completes", "handle_slots": 3})
+    # C20: operation-kind skeletons (0 injector, 1 clone, 2 drop, 3 restart, 4 tick(0), 5 pending run completes)
+    if q:
+        seqs = [[0, 1, 3, 0, 2], [0, 4, 3, 4, 0], [0, 3, 1, 4, 5], [3, 0, 4, 2, 0]]
+    else:
+        import itertools
+        seqs = [list(s) for s in itertools.product(range(6), repeat=4) if 3 in s and 0 in s] + \
+               [[0, 1, 3, 0, 2, 4], [0, 4, 3, 4, 0, 5], [0, 3, 1, 4, 5, 2], [3, 0, 4, 2, 0, 3], [0, 3, 3, 0, 4, 1], [0, 4, 5, 3, 0, 4]]
+    names = "icdrtp"
+    for sq in seqs:
+        code = sum(o * 6 ** i for i, o in enumerate(sq))
+        add("injector_count_%s" % "".join(names[o] for o in sq), 8, "injector_count::<%d>(%d)" % (len(sq), code), ["C20"],
+            {"operation_kinds": [["injector()", "clone", "drop", "restart(b)", "tick(0)", "pending run completes"][o] for o in sq],
+             "parameters": "symbolic: handle slot, restart flag, timed-lock outcome", "handle_slots": 3})
+    TM = ["acquired in time", "timed out, run still pending", "timed out and the run finishes before the tick re-arms"]
     for it in ([1] if q else [0, 1, 2]):
-        add("wakeup_i%d" % it, 8, "wakeup::<%d>()" % it, ["C13", "C06", "C19"],
-            {"items": it, "ticks": 2, "timed_lock_outcomes": "symbolic: acquired in time / timed out / timed out and the run finishes before the tick re-arms", "worker_threads": 1})
+        for tm in (0, 1, 2):
+            add("wakeup_i%d_t%d" % (it, tm), 8, "wakeup::<%d>(%d)" % (it, tm), ["C13", "C06", "C19", "C07"],
+                {"items": it, "ticks": 3, "timed_lock_outcome": TM[tm], "second_push": "symbolic", "worker_threads": 1})
+    for pre, batch in ([(1, 2)] if q else [(0, 2), (1, 2), (2, 2), (1, 3)]):
+        add("inflight_p%d_b%d" % (pre, batch), 8, "inflight_writer::<%d, %d>()" % (pre, batch), ["C06", "C19", "C07"],
+            {"items_before": pre, "batch_in_flight": batch, "ui_activity_between_publications": "tick, optionally run completes + tick (symbolic)",
+             "timed_lock_outcomes": "symbolic", "pattern": "empty"})
+    for o, nw in ([(1, 1)] if q else [(0, 1), (1, 0), (1, 1), (2, 1), (1, 2)]):
+        add("restart_o%d_n%d" % (o, nw), 8, "restart_isolation::<%d, %d>()" % (o, nw), ["C12", "C06", "C19", "C07"],
+            {"items_before_restart": o, "items_after_restart": nw, "clear_snapshot": "symbolic", "old_run": "symbolic: completed before the restart or still pending",
+             "timed_lock_outcomes": "symbolic", "ticks_after_restart": 2})
     return out
 
 
